@@ -53,7 +53,7 @@ func genGRun(r *rand.Rand) *grunCase {
 	return c
 }
 
-func runGRun(c *grunCase, rep *Report, idx int) string {
+func runGRun(c *grunCase, rep *Report, idx int) (string, string) {
 	w := &gworld{byPtr: map[uintptr]int{}, named: c.named}
 	var st *gomini.State
 	if c.named {
@@ -104,9 +104,23 @@ func runGRun(c *grunCase, rep *Report, idx int) string {
 		want = 1
 	}
 	obs := fmt.Sprintf("%d answer(s)", len(answers))
+	// the same run for the transcribed algorithm (coq/GCore.v): the equations in order, then rewrite of the query
+	eqs := make([]string, len(c.eqs))
+	for k, e := range c.eqs {
+		eqs[k] = "(" + e[0].coqG() + ", " + e[1].coqG() + ")"
+	}
+	ans := []string{}
+	for _, a := range answers {
+		if v, isT := a.(*GT); isT {
+			ans = append(ans, w.fromGo(v).coqG())
+		} else {
+			ans = append(ans, "GNil")
+		}
+	}
+	coqCase := fmt.Sprintf("CGRun (gvar 0%%N) %s %s", coqList(eqs), coqList(ans))
 	if len(answers) != want {
 		rep.violate(idx, "gomini-run-answer-count", c.desc, fmt.Sprintf("%d answers, expected %d", len(answers), want))
-		return obs
+		return obs, coqCase
 	}
 	for _, a := range answers {
 		obs += fmt.Sprintf(" %T", a)
@@ -132,5 +146,5 @@ func runGRun(c *grunCase, rep *Report, idx int) string {
 		}
 		k++
 	}
-	return obs
+	return obs, coqCase
 }
